@@ -50,7 +50,9 @@ LINK_CORE = ["[link](http://ex.com/a)", "[two words](http://ex.com/a_b?q=1&r=2)"
              "www.example.com/chef's-menu", "<a.b@c.example>", "www.bare.example.org",
              "<https://example.org/notes.txt~>", "https://github.com/org/repo/compare/v1.0...v2.0", "<https://x.y/a...b>",
              "[sp](<http://x.y/a b>)", "![i](<my img.png> \"t\")", "[p](<http://x.y/(a>)",
-             "[文档](https://example.com/wiki/中文doc)", "https://example.com/文档v2", "![图alt](img中文2.png)"]
+             "[文档](https://example.com/wiki/中文doc)", "https://example.com/文档v2", "![图alt](img中文2.png)",
+             # a backslash that is part of the destination (written doubled before punctuation; a bare one before a letter)
+             "[bs](docs\\\\*star.md)", "[win](C:\\dir\\file.md)", "[endbs](<dir name\\\\>)", "![bsi](p\\\\_q.png)"]
 LINK_HOSTILE = ["[sp](<http://x.y/a b>)", "[t](http://x.y 'single')", "[p](http://x.y (paren))", "[dots. End](http://x.y)",
                 "[nested [br]](http://x.y)", "[e](http://x.y/(a))", "www.bare.example.org"]
 HTML_INL = ["<span class=\"a b\">", "</span>", "<br/>", "<b>", "</b>", "<a href=\"http://x.y/z\" title=\"t's\">", "</a>",
